@@ -173,38 +173,68 @@ func sensorRun(ctx *Ctx, in sensorIn) (sensorObs, string) {
 	obs.Avgs = []string{}
 	obs.Errs = []bool{}
 	var sensor sensors.Sensor
-	obs.Panic = catch(func() {
+	wd := sensorWatchdog(in.Kind)
+	// every call into the real code runs under the watchdog (drv_sensor_guard.go)
+	call := func(where string, f func()) bool {
+		if r := sensorGuard(wd, f); r != "" {
+			obs.Panic = where + ": " + r
+			return false
+		}
+		return true
+	}
+	harness := catch(func() {
 		if in.InitMode == "set" {
 			// a readable value is in place; the average is then set directly
 			w.apply(sensorStep{Text: "0\n"})
-			s, err := sensors.NewSensor(cfg)
-			if err != nil {
-				panic(err)
+			if !call("NewSensor+SetMovingAvg", func() {
+				s, err := sensors.NewSensor(cfg)
+				if err != nil {
+					panic(err)
+				}
+				s.SetMovingAvg(sensorParseF(in.InitSet))
+				sensor = s
+			}) {
+				return
 			}
-			s.SetMovingAvg(sensorParseF(in.InitSet))
-			sensor = s
 		} else {
 			w.apply(in.InitStep)
 			// initializeSensors registers a prometheus collector on the default registerer: fresh one per case
 			prometheus.DefaultRegisterer = prometheus.NewRegistry()
 			configuration.CurrentConfig.Sensors = []configuration.SensorConfig{cfg}
-			if err := internal.VerifInitializeSensors(controllers); err != nil {
-				panic(err)
+			if !call("initializeSensors", func() {
+				if err := internal.VerifInitializeSensors(controllers); err != nil {
+					panic(err)
+				}
+				s, ok := sensors.GetSensor(id)
+				if !ok {
+					panic("sensor not registered")
+				}
+				sensor = s
+			}) {
+				return
 			}
-			s, ok := sensors.GetSensor(id)
-			if !ok {
-				panic("sensor not registered")
-			}
-			sensor = s
 		}
-		obs.Init = sensorFmtF(sensor.GetMovingAvg())
-		for _, st := range in.Steps {
+		var avg float64
+		if !call("GetMovingAvg after seeding", func() { avg = sensor.GetMovingAvg() }) {
+			return
+		}
+		obs.Init = sensorFmtF(avg)
+		for k, st := range in.Steps {
 			w.apply(st)
-			err := internal.VerifUpdateSensor(sensor)
-			obs.Avgs = append(obs.Avgs, sensorFmtF(sensor.GetMovingAvg()))
+			var err error
+			if !call("updateSensor poll "+itoa(k), func() { err = internal.VerifUpdateSensor(sensor) }) {
+				return
+			}
+			if !call("GetMovingAvg after poll "+itoa(k), func() { avg = sensor.GetMovingAvg() }) {
+				return
+			}
+			obs.Avgs = append(obs.Avgs, sensorFmtF(avg))
 			obs.Errs = append(obs.Errs, err != nil)
 		}
 	})
+	if harness != "" {
+		obs.Panic = harness
+	}
 	if obs.Init == "" {
 		obs.Init = "nan"
 	}
@@ -525,8 +555,12 @@ func init() {
 			}
 			ctx.Emit(Record{In: in, Obs: obs, Coq: coq, Tags: tags, NonTrv: len(distinct) >= 2})
 		}
+		sensorHungInStream = 0
 		for _, raw := range append(ctx.Corpus, ctx.Replay...) {
 			var in sensorIn
+			if sensorStreamStopped() {
+				break
+			}
 			if json.Unmarshal(raw, &in) == nil && in.Kind != "" {
 				emit(in, "corpus")
 			}
@@ -538,20 +572,23 @@ func init() {
 		n := ctx.Param("n", 600)
 		nh := ctx.Param("hostile", 60)
 		thorough := !ctx.Quick()
-		for i := 0; i < n; i++ {
+		sensorHungInStream = 0
+		for i := 0; i < n && !sensorStreamStopped(); i++ {
 			in, tags := sensorGenCase(rng, thorough, false)
 			emit(in, tags...)
 		}
 		// the real monitor loop (ticker) over a hook-served file: failure streaks of 1..3 windows
 		mr := NewRng(ctx.Seed, "sensor-monitor")
-		for i := 0; i < ctx.Param("monitor", 30); i++ {
+		sensorHungInStream = 0
+		for i := 0; i < ctx.Param("monitor", 30) && !sensorStreamStopped(); i++ {
 			in, tags := sensorMonGen(mr)
 			emit(in, tags...)
 		}
 		// sensors created by the real start-up glue (GetChips on a fake chip + initializeSensors): one hwmon,
 		// one file and one cmd sensor per InitializeObjects call
 		sr := NewRng(ctx.Seed, "sensor-startup")
-		for i := 0; i < ctx.Param("startup", 40); i++ {
+		sensorHungInStream = 0
+		for i := 0; i < ctx.Param("startup", 40) && !sensorStreamStopped(); i++ {
 			var ins []sensorIn
 			var tagss [][]string
 			hin, htags := sensorStartupGenHwmon(sr)
@@ -570,7 +607,8 @@ func init() {
 			}
 		}
 		hr := NewRng(ctx.Seed, "sensor-hostile")
-		for i := 0; i < nh; i++ {
+		sensorHungInStream = 0
+		for i := 0; i < nh && !sensorStreamStopped(); i++ {
 			in, tags := sensorGenCase(hr, thorough, true)
 			emit(in, tags...)
 		}
